@@ -56,6 +56,9 @@ THEOREMS = [
     # what is false on the unchanged code / what the statement does not claim
     'CpProofs.C06.C06_stream_full_false',
     'CpProofs.C06.stream_204_keeps_body',
+    'CpProofs.C06.bare_error_framed',
+    'CpProofs.C06.none_length_resolved',
+    'CpProofs.C06.handlerFileObj_CLok',
 ]
 LEVEL = 'proof'
 TECHNIQUE = ('Lean 4 proof: a framing invariant (Content-Length absent, or the body is clean bytes of exactly that length) '
@@ -131,23 +134,25 @@ BODIES = {
     'raise0': 'G:r',
     'raise1': 'G:b,r',
     'static': 'X:b' + H(b'0123456789abcdefghij'),
+    'fileobj': 'Y:b' + H(b'unknown length'),
+    'efileobj': 'Y:',
     'estatic': 'X:',
     'json': 'J:b' + H(b'aa') + ',b' + H(b'b'),
     'big': 'B:b' + H(b'x' * 700),
 }
-ALLBYTES = {'bytes', 'empty', 'none', 'list', 'elist', 'gen', 'egen', 'file', 'efile', 'big'}
+ALLBYTES = {'bytes', 'empty', 'none', 'list', 'elist', 'gen', 'egen', 'file', 'efile', 'big', 'fileobj', 'efileobj'}
 TEXTY = {'text', 'latin', 'tlist', 'tgen', 'tgen2'}
 STATUSES = ['-', 's201', 's204', 's205', 's304', 's100', 's206', 's404', 'i',
             'e404', 'e402', 'e500', 'e410', 'r303', 'r301', 'r304', 'r305', 'r306', 'x']
 TOOLS = ['encode', 'gzip', 'etags', 'caching', 'expires', 'flatten', 'stream']
 TOOL_LETTER = {'encode': 'e', 'gzip': 'g', 'etags': 't', 'caching': 'c', 'expires': 'x', 'flatten': 'f',
-               'stream': 's'}
+               'stream': 's', 'errfails': 'b'}
 METHODS = ['GET', 'HEAD', 'POST']
 AES = ['-', 'gzip', 'identity', 'gzipq0', 'other', 'idq0']
 CONDS = ['-', 'star', 'match', 'other']
 ACS = ['-', 'utf8', 'latin1', 'ascii', 'star']
 RANGES = ['-', 'bytes=2-5', 'bytes=2-5,7-9', 'bytes=50-', 'bytes=0-', 'bytes=-3', 'bytes=3-2', 'bytes=0-0,19-']
-PAGES = ['tmpl', 'short', 'empty', 'long']
+PAGES = ['tmpl', 'short', 'empty', 'long', 'str', 'iter', 'raise', 'int']
 CTS = ['html', 'plain', 'json', 'octet']
 KEY_CODES = {100, 200, 201, 204, 205, 206, 301, 303, 304, 305, 402, 404, 406, 410, 412, 416, 500}
 ALL_SUBSETS = [[t for i, t in enumerate(TOOLS) if m >> i & 1] for m in range(1 << len(TOOLS))]
@@ -180,6 +185,8 @@ def normalise(case):
                                and c.get('ct') in ('html', 'plain'))
         if not ok:
             c['hcl'] = 0
+    if b in ('fileobj', 'efileobj') and c['st'][0] not in '-si':
+        c['st'] = '-'      # (the model's serve_fileobj handler sets a status or none; it does not raise)
     if b in ('static', 'estatic'):
         c['hcl'] = 1 if c.get('hcl') else 0
         if c['st'][0] not in '-s':
@@ -194,7 +201,12 @@ def normalise(case):
 
 def model_line(case):
     tools = ''.join(TOOL_LETTER[t] for t in case['tools']) or '-'
-    page = 'pt' if case['page'] == 'tmpl' else 'pc:' + (R.PAGES[case['page']].hex() or '-')
+    if case['page'] in R.TMPL_PAGES:
+        page = 'pt'
+    elif case['page'] == 'iter':
+        page = 'pi:' + '/'.join(x.hex() for x in R.PAGES['iter'])
+    else:
+        page = 'pc:' + (R.PAGES[case['page']].hex() or '-')
     body = case['body']
     if body.startswith('J:'):
         kind, chunks = R.parse_body(body)
@@ -503,6 +515,13 @@ def systematic_quick():
                 for m in ('GET', 'HEAD'):
                     for hcl in (0, 1):
                         out.append(mk(b, '-', tools, [req(m, ae='idq0')], page=page, hcl=hcl))
+    # error_response itself fails -> bare_error from Request.run, for every way to get into handle_error
+    for b, st, hook in (('bytes', 'x', '-'), ('tgen', '-', '-'), ('nested', '-', '-'), ('graise', '-', '-'),
+                        ('bytes', 'r306', '-'), ('bytes', '-', '60:x:0'), ('bytes', 'e404', '90:e402:0'),
+                        ('static', '-', '77:x:1'), ('bytes', 's204', '-')):
+        for tools in (['errfails'], ['errfails', 'stream'], ['errfails', 'gzip', 'caching'], ['errfails', 'etags']):
+            for m in METHODS:
+                out.append(mk(b, st, tools, [req(m, ae='gzip')], hook=hook, hcl=1))
     # caching histories
     for tools in (['caching'], ['caching', 'gzip'], ['caching', 'etags'], ['caching', 'stream'],
                   ['caching', 'gzip', 'etags', 'encode', 'expires', 'flatten'], ['caching', 'encode', 'stream']):
@@ -555,6 +574,8 @@ def random_case(rng):
     b = rng.choice(list(BODIES))
     st = rng.choice(STATUSES) if rng.random() < 0.6 else '-'
     tools = [t for t in TOOLS if rng.random() < 0.4]
+    if rng.random() < 0.08:
+        tools.append('errfails')
     nreq = 1
     if 'caching' in tools:
         nreq = rng.choice([1, 2, 2, 3])
